@@ -362,6 +362,101 @@ def _cfgname(cfg):
     return ",".join("%s=%s" % (k[:6], v) for k, v in sorted(cfg.items())) or "default"
 
 
+TRUNC_PROP = {"YY": "year_of_century", "z": "year_of_decade", "MM": "month_of_year", "DD": "day_of_month", "DDD": "day_of_year",
+              "Www": "week_of_year", "D": "day_of_week", "hh": "hour_of_day", "mm": "minute_of_hour", "ss": "second_of_minute"}
+SAFE = {"YY": (0, 99), "z": (0, 9), "MM": (1, 12), "DD": (1, 28), "DDD": (1, 365), "Www": (1, 52), "D": (1, 7),
+        "hh": (0, 23), "mm": (0, 59), "ss": (0, 59), "zhh": (0, 99), "zmm": (0, 59)}
+
+
+def job_trunc(ctx, dexpr, texpr, zexpr, fmtkey):
+    """truncated forms (allow_truncated=True): a string of the form's shape with
+    symbolic digits decodes to exactly the spelled truncated properties, the
+    zone is unknown unless given, and dump_as_parsed reproduces the input"""
+    data, parsers = ctx.data, ctx.parsers
+    C.set_mode(data, "gregorian")
+    install_range_summary(data, "gregorian")
+    install_weeks_summary(data, "gregorian")
+    PARSER = parsers.TimePointParser(allow_truncated=True, default_to_unknown_time_zone=True)
+    dt, tt, zt = tokenize(dexpr, "date"), tokenize(texpr or "", "time"), tokenize(zexpr or "", "zone")
+
+    def make(e):
+        de, dv = build(e, dt, "d", 2, "5")
+        te, tv = build(e, tt, "t", 2, "5")
+        ze, zv = build(e, zt, "z", 2, "5")
+        return {"els": de + (["T"] + te + ze if texpr is not None else []), "dv": dv, "tv": tv, "zv": zv}
+
+    def in_safe(i):
+        cs = []
+        for vals in (i["dv"], i["tv"], i["zv"]):
+            for t, v in vals.items():
+                if t in SAFE and type(v) is SymInt:
+                    cs.append(z3.And(L(v) >= SAFE[t][0], L(v) <= SAFE[t][1]))
+        zv = i["zv"]
+        if type(zv.get("zsign")) is SymInt:
+            cs.append(z3.Not(z3.And(L(zv["zsign"]) == 1, L(zv.get("zhh", 0)) == 0, L(zv.get("zmm", 0)) == 0)))
+        return z3.And(cs) if cs else z3.BoolVal(True)
+
+    def body(i):
+        s = SymStr.make(i["els"])
+        p = PARSER.parse(s, dump_as_parsed=True)
+        return s, p, data.TimePoint.__str__(p)
+
+    def post(i, out):
+        safe = in_safe(i)
+        if out[0] == "exc":
+            exc = out[1]
+            obs = [("refusal is a ValueError subclass", isinstance(exc, ValueError))]
+            if isinstance(exc, ValueError):
+                obs.append(("every always-valid assignment of this truncated form is accepted", z3.Not(safe)))
+            return obs
+        if out[0] != "ok":
+            return [("no exception", False)]
+        text, p, dumped = out[1]
+        if not p._truncated:
+            return [("a truncated time point", False)]
+        props = p.get_truncated_properties()
+        want = {}
+        for vals in (i["dv"], i["tv"]):
+            for t, v in vals.items():
+                if t in TRUNC_PROP:
+                    want[TRUNC_PROP[t]] = v
+        obs = [("exactly the spelled fields are reported", sorted(props) == sorted(want))]
+        if sorted(props) == sorted(want):
+            cs = []
+            for k, v in want.items():
+                g = props[k]
+                if "dec" in i["tv"] and k == {"ii": "hour_of_day", "nn": "minute_of_hour", "tt": "second_of_minute"}[i["tv"]["dec"][0]]:
+                    continue
+                cs.append(L(g) == L(v))
+            obs.append(("with the spelled values", z3.And(cs) if cs else True))
+        tz = p._time_zone
+        zv = i["zv"]
+        if zexpr:
+            zneg = zv.get("zsign")
+            if zexpr == "Z":
+                obs.append(("Z is UTC and known", z3.And(L(tz._hours) == 0, L(tz._minutes) == 0, z3.BoolVal(tz._unknown is False))))
+            else:
+                sgn = z3.If(L(zneg) == 1, -1, 1) if type(zneg) is SymInt else 1
+                obs.append(("zone is the spelled offset and known", z3.And(L(tz._hours) == sgn * L(zv.get("zhh", 0)),
+                                                                         L(tz._minutes) == sgn * L(zv.get("zmm", 0)),
+                                                                         z3.BoolVal(tz._unknown is False))))
+        else:
+            obs.append(("zone unknown unless given", tz._unknown is True))
+        obs.append(("dump_as_parsed reproduces the input", z3.Implies(safe, z3_str_eq(dumped, text))))
+        return obs
+
+    def case_of(v, i):
+        txt = text_of(v, dt, "d", 2, "5")
+        if texpr is not None:
+            txt += "T" + text_of(v, tt, "t", 2, "5") + text_of(v, zt, "z", 2, "5")
+        return {"check": "trunc", "mode": "gregorian", "text": txt, "expr": [dexpr, texpr, zexpr]}
+
+    return sym_run("trunc[%s|%s|%s]" % (dexpr, texpr, zexpr), make, None, body, post, case_of,
+                   engine_opts={"fork_span": 2} if "W" not in dexpr else None,
+                   scenarios=lambda i: {"truncated form": True, "truncated with zone": bool(zexpr), "truncated without zone": not zexpr},
+                   bounds={"date": dexpr, "time": texpr, "zone": zexpr, "format": fmtkey}, sample_every=50)
+
+
 def job_reject(ctx, cfg, kind):
     """a parser restricted to basic notation refuses every extended-only form;
     basic dates are never combined with extended times or vice versa"""
@@ -432,7 +527,7 @@ def replay(case, M_):
     mode = case.get("mode", "gregorian")
     data.CALENDAR.set_mode(mode)
     try:
-        cfg = dict(case["cfg"])
+        cfg = dict(case.get("cfg", {}))
         if cfg.get("assumed_time_zone") is not None:
             cfg["assumed_time_zone"] = tuple(cfg["assumed_time_zone"])
         P = parsers.TimePointParser(**cfg)
@@ -443,6 +538,8 @@ def replay(case, M_):
                 return True, "parse(%r) with %s accepted: %s" % (txt, cfg, p)
             except ValueError:
                 return False, "refused"
+        if case["check"] == "trunc":
+            return _replay_trunc(case, parsers)
         dexpr, texpr, zexpr = case["expr"]
         ned = cfg.get("num_expanded_year_digits", 2)
         # decode the text independently by position
@@ -482,6 +579,63 @@ def replay(case, M_):
         return bool(bad), "parse(%r) = %s: %s" % (txt, p, "; ".join(bad) or "ok")
     finally:
         data.CALENDAR.set_mode("gregorian")
+
+
+def _replay_trunc(case, parsers):
+    txt = case["text"]
+    dexpr, texpr, zexpr = case["expr"]
+    P = parsers.TimePointParser(allow_truncated=True, default_to_unknown_time_zone=True)
+    pos = 0
+    want, zone, safe = {}, None, True
+    zsign = 1
+    for kind, expr in (("date", dexpr), ("time", texpr), ("zone", zexpr)):
+        if expr is None:
+            continue
+        if kind == "time":
+            pos += 1
+        for t, a in tokenize(expr or "", kind):
+            if t == "lit":
+                pos += 1
+            elif t == "zsign":
+                zsign = -1 if txt[pos] == "-" else 1
+                pos += 1
+            elif t == "dec":
+                pos += 1
+                while pos < len(txt) and txt[pos].isdigit():
+                    pos += 1
+                want.pop({"ii": "hour_of_day", "nn": "minute_of_hour", "tt": "second_of_minute"}[a[1:]], None)
+            else:
+                w = WIDTH[t] + (1 if t == "Www" else 0)
+                v = int(txt[pos + (1 if t == "Www" else 0):pos + w])
+                pos += w
+                if t in TRUNC_PROP:
+                    want[TRUNC_PROP[t]] = v
+                if t in SAFE and not (SAFE[t][0] <= v <= SAFE[t][1]):
+                    safe = False
+                if t == "zhh":
+                    zone = (zsign * v, (zone or (0, 0))[1])
+                if t == "zmm":
+                    zone = ((zone or (0, 0))[0], zsign * v)
+    if zexpr == "Z":
+        zone = (0, 0)
+    try:
+        p = P.parse(txt, dump_as_parsed=True)
+    except ValueError as exc:
+        return bool(safe), "parse(%r) refused: %s" % (txt, exc)
+    except Exception as exc:
+        return True, "parse(%r) raised %s: %s" % (txt, type(exc).__name__, exc)
+    props = p.get_truncated_properties() or {}
+    bad = []
+    for k, v in want.items():
+        if props.get(k) != v:
+            bad.append("%s = %s, spelled %s" % (k, props.get(k), v))
+    if zone is None and not p.time_zone.unknown:
+        bad.append("zone should be unknown")
+    if zone is not None and (p.time_zone.unknown or (p.time_zone.hours, p.time_zone.minutes) != zone):
+        bad.append("zone %s/%s unknown=%s, spelled %s" % (p.time_zone.hours, p.time_zone.minutes, p.time_zone.unknown, zone))
+    if safe and str(p) != txt and not (zone == (0, 0) and zsign == -1):
+        bad.append("dump_as_parsed gives %r" % str(p))
+    return bool(bad), "parse(%r) -> %s: %s" % (txt, props, "; ".join(bad) or "ok")
 
 
 def _independent_decode(txt, dexpr, texpr, zexpr, ned):
@@ -581,6 +735,9 @@ def jobs(tier):
     spec = importlib.import_module("metomi.isodatetime.parser_spec")
     parsers = importlib.import_module("metomi.isodatetime.parsers")
     T = form_tables(spec, parsers)
+    get = parsers.TimePointParser.get_expressions
+    TR = {f: {"date": list(get(spec.DATE_EXPRESSIONS[f]["truncated"])), "time": list(get(spec.TIME_EXPRESSIONS[f]["truncated"]))}
+          for f in ("basic", "extended")}
     for m in [k for k in sys.modules if k.startswith("metomi")]:
         del sys.modules[m]
     sys.path.remove(repo)
@@ -589,7 +746,7 @@ def jobs(tier):
 
     def rg(d):
         # week forms with expanded years: mod-7 arithmetic over six decimal digits is slow in z3
-        return {"dX0": (0, 0), "dX1": (0, 0), "dCC0": (1, 2), "dCC1": (0, 1)} if ("W" in d and "X" in d) else None
+        return {"dX0": (0, 0), "dX1": (0, 0), "dX2": (0, 0), "dCC0": (1, 2), "dCC1": (0, 1)} if ("W" in d and "X" in d) else None
     for fmt in ("basic", "extended"):
         t = T[fmt]
         full_t = t["time"][0]
@@ -632,6 +789,19 @@ def jobs(tier):
             J.append(("job_form", dict(mode=mode, dexpr=d, texpr=tx, zexpr=z, cfg=base)))
             dtoks = sorted({t_ for t_, _ in tokenize(d, "date") if t_ not in ("lit", "X", "sign")})
             J.append(("job_form", dict(mode=mode, dexpr=d, texpr=tx, zexpr=z, cfg=base, focus=dtoks)))
+    for fmt in ("basic", "extended"):
+        tr_dates = TR[fmt]["date"]
+        tr_times = TR[fmt]["time"]
+        full_times = T[fmt]["time"]
+        zones = T[fmt]["zone"]
+        for d in tr_dates:
+            J.append(("job_trunc", dict(dexpr=d, texpr=None, zexpr=None, fmtkey=fmt)))
+            for tx in ([full_times[0], "hh"] if not th else full_times):
+                for z in ("", "Z", zones[-1]):
+                    J.append(("job_trunc", dict(dexpr=d, texpr=tx, zexpr=z, fmtkey=fmt)))
+        for tx in tr_times + ["hh", full_times[0]]:
+            for z in [""] + zones:
+                J.append(("job_trunc", dict(dexpr="", texpr=tx, zexpr=z, fmtkey=fmt)))
     J.append(("job_reject", dict(cfg={"assumed_time_zone": (0, 0), "allow_only_basic": True}, kind="only_basic")))
     J.append(("job_reject", dict(cfg={"assumed_time_zone": (0, 0)}, kind="mixed")))
     return J
@@ -653,11 +823,11 @@ INFO = {
     "bounds": {"quick": {"forms": "all 12 complete date forms x the hhmmss/hh:mm:ss form x all zone spellings; every other time form (incl. decimals ,5 / .5) with no zone and Z; hh and hhmm forms with every zone; all reduced date forms; 6 parser configurations x 6 forms; 3 other calendar modes x 3 forms",
                          "digits": "decoding: every digit symbolic, restricted to valid assignments (years 0000-9999, +-000000..999999; week forms with expanded years: +-001000..+-002199 only); accepted<=>valid: the date tokens (00-99 / 000-999 incl. invalid values) or the time and zone tokens symbolic with the other tokens fixed", "excluded": "negative zero: '-000000' years and '-00:00' offsets (their canonical text is '+...')", "decimals": "concrete fraction digits 5, 25"},
                "thorough": {"forms": "the full date x time x zone cross product", "decimals": "5, 25, 125, 0, 50, 000001"}},
-    "outside": ["truncated forms (only one parser configuration with allow_truncated is run on complete forms)",
+    "outside": ["truncated forms combined with every time form (quick: the hh[:]mm[:]ss and hh forms and the truncated time forms)",
                 "decimal fractions with symbolic or non-dyadic digits (floating point)", "strings that are not instances of a documented form (C09 text clause)",
                 "the local-system default zone (covered by C18's get_local_time_zone)"],
     "assumptions": ["the regex shim interprets the library's own patterns; validated against re on every run",
                     "get_days_in_year_range and get_weeks_in_year run as their closed forms (C03)"],
 }
-REQUIRED_SCENARIOS = {"all": ["form parsed", "expanded year form", "week form", "ordinal form", "decimal time", "zone given",
+REQUIRED_SCENARIOS = {"all": ["truncated form", "truncated with zone", "truncated without zone", "form parsed", "expanded year form", "week form", "ordinal form", "decimal time", "zone given",
                               "zone missing", "reduced date", "refusals:only_basic", "refusals:mixed"]}
